@@ -3,6 +3,7 @@ package checks
 import (
 	"fmt"
 	"github.com/golang/protobuf/proto"
+	"reflect"
 	"sort"
 	"strings"
 	"time"
@@ -97,6 +98,22 @@ func stricAsc(keys []string) bool {
 // evalC08 checks one build attempt. longInput: some key or shared run exceeds
 // the documented 16 KiB, so rejection is allowed, silent loss is not.
 func evalC08(w *h.Worker, keys []string, opt h.Opt4, withVals bool, longInput bool) *h.Viol {
+	if withVals && len(keys) >= 2 && len(keys) <= 4 && !longInput {
+		// short lists also with a value encoder that is an object (TypeEncoder over
+		// a struct) and a variable-width one (String16)
+		for kind := 1; kind <= 2; kind++ {
+			c08EncKind(w, kind)
+			v := evalC08v(w, keys, opt, true, false, 1)
+			if v == nil {
+				v = evalC08v(w, keys, opt, true, false, 2)
+			}
+			c08EncKind(w, 0)
+			if v != nil {
+				v.Msg += fmt.Sprintf(" [value encoder: %s]", []string{"I32", "TypeEncoder(struct)", "String16"}[kind])
+				return v
+			}
+		}
+	}
 	if v := evalC08v(w, keys, opt, withVals, longInput, 1); v != nil || !withVals || len(keys) < 2 || len(keys) > 64 {
 		return v
 	}
@@ -110,19 +127,51 @@ func evalC08(w *h.Worker, keys []string, opt h.Opt4, withVals bool, longInput bo
 
 // evalC08v: values change every `run` keys.
 func evalC08v(w *h.Worker, keys []string, opt h.Opt4, withVals bool, longInput bool, run int) *h.Viol {
-	valOf := func(i int) int32 { return int32((i/run)*3 + 1) }
+	kind, _ := w.Scratch["c08enc"].(int)
+	valOf := func(i int) interface{} {
+		x := int32((i/run)*3 + 1)
+		switch kind {
+		case 1:
+			return c08Rec{A: x * 0x01010101, B: uint16(x)}
+		case 2:
+			return strings.Repeat("v", int(x)%5) + fmt.Sprint(x)
+		}
+		return x
+	}
+	var enc encode.Encoder = encode.I32{}
 	var vals interface{}
 	if withVals {
-		v := make([]int32, len(keys))
-		for i := range v {
-			v[i] = valOf(i)
+		switch kind {
+		case 1:
+			te, terr := encode.NewTypeEncoder(c08Rec{})
+			if terr != nil {
+				panic(terr)
+			}
+			enc = te
+			v := make([]c08Rec, len(keys))
+			for i := range v {
+				v[i] = valOf(i).(c08Rec)
+			}
+			vals = v
+		case 2:
+			enc = encode.String16{}
+			v := make([]string, len(keys))
+			for i := range v {
+				v[i] = valOf(i).(string)
+			}
+			vals = v
+		default:
+			v := make([]int32, len(keys))
+			for i := range v {
+				v[i] = valOf(i).(int32)
+			}
+			vals = v
 		}
-		vals = v
 	}
 	var st *trie.SlimTrie
 	var err error
 	p := h.Safely(func() {
-		st, err = trie.NewSlimTrie(encode.I32{}, append([]string{}, keys...), vals, opt.ToOpt())
+		st, err = trie.NewSlimTrie(enc, append([]string{}, keys...), vals, opt.ToOpt())
 	})
 	w.Trans++
 	asc := stricAsc(keys)
@@ -173,8 +222,8 @@ func evalC08v(w *h.Worker, keys []string, opt h.Opt4, withVals bool, longInput b
 				// with equal neighbouring values the guarantee for every input key is RangeGet's
 				v, found := st.RangeGet(k)
 				w.Trans++
-				if !found || v != valOf(i) {
-					viol = &h.Viol{Sig: "accepted-but-key-lost", Msg: fmt.Sprintf("accepted input (values change every %d keys), but RangeGet on its own key #%d (%s) = (%v,%v), want %d", run, i, briefQ(k), v, found, valOf(i))}
+				if !found || !reflect.DeepEqual(v, valOf(i)) {
+					viol = &h.Viol{Sig: "accepted-but-key-lost", Msg: fmt.Sprintf("accepted input (values change every %d keys), but RangeGet on its own key #%d (%s) = (%v,%v), want %v", run, i, briefQ(k), v, found, valOf(i))}
 					return
 				}
 				continue
@@ -185,8 +234,8 @@ func evalC08v(w *h.Worker, keys []string, opt h.Opt4, withVals bool, longInput b
 				viol = &h.Viol{Sig: "accepted-but-key-lost", Msg: fmt.Sprintf("accepted input, but Get on its own key #%d (%s) reports not found", i, briefQ(k))}
 				return
 			}
-			if withVals && v != valOf(i) {
-				viol = &h.Viol{Sig: "accepted-but-wrong-value", Msg: fmt.Sprintf("accepted input, but Get on key #%d (%s) = %v, want %d", i, briefQ(k), v, valOf(i))}
+			if withVals && !reflect.DeepEqual(v, valOf(i)) {
+				viol = &h.Viol{Sig: "accepted-but-wrong-value", Msg: fmt.Sprintf("accepted input, but Get on key #%d (%s) = %v, want %v", i, briefQ(k), v, valOf(i))}
 				return
 			}
 		}
@@ -196,6 +245,13 @@ func evalC08v(w *h.Worker, keys []string, opt h.Opt4, withVals bool, longInput b
 	}
 	return viol
 }
+
+type c08Rec struct {
+	A int32
+	B uint16
+}
+
+func c08EncKind(w *h.Worker, kind int) { w.Scratch["c08enc"] = kind }
 
 var c08Modes = []h.Opt4{{D: 1, I: 0, L: 0, C: 0}, {D: 1, I: 1, L: 0, C: 0}, {D: 1, I: 0, L: 1, C: 0}, {D: 1, I: 0, L: 0, C: 1}}
 
@@ -654,6 +710,68 @@ func evalC12Reload(w *h.Worker, prior, keys []string, bsz int, form string, qs [
 		if err != nil {
 			return
 		}
+		if strings.HasPrefix(form, "loader") {
+			// the only way to make a SlimIndex from serialized data is the literal
+			// SlimIndex{SlimTrie: *st, DataReader: dr}: one loader trie opens the
+			// stream of A, the index over A is made from it by value, then the same
+			// loader opens B; BOTH indexes must stay exact maps
+			bufA, e1 := si.Marshal()
+			bufB, e2 := other.Marshal()
+			if e1 != nil || e2 != nil {
+				viol = &h.Viol{Sig: "index-marshal-error", Msg: fmt.Sprintf("Marshal of a SlimIndex failed: %v %v", e1, e2)}
+				return
+			}
+			loader, lerr := trie.NewSlimTrie(encode.I64{}, nil, nil)
+			if lerr != nil {
+				return
+			}
+			if err := loader.Unmarshal(bufA); err != nil {
+				viol = &h.Viol{Sig: "index-reload-error", Msg: "loading the stream of an index failed: " + err.Error()}
+				return
+			}
+			siA := &index.SlimIndex{SlimTrie: *loader, DataReader: rrA}
+			var err error
+			switch form {
+			case "loader":
+				err = loader.Unmarshal(bufB)
+			case "loader-reset":
+				loader.Reset()
+				err = loader.Unmarshal(bufB)
+			case "loader-proto":
+				err = proto.Unmarshal(bufB, loader)
+			}
+			if err != nil {
+				viol = &h.Viol{Sig: "index-reload-error", Msg: fmt.Sprintf("loading a second stream with the same loader (%s) failed: %v", form, err)}
+				return
+			}
+			siB := &index.SlimIndex{SlimTrie: *loader, DataReader: rrB}
+			w.Trans += 2
+			for _, x := range []struct {
+				si *index.SlimIndex
+				ks []string
+				nm string
+			}{{siA, prior, "the index made BEFORE the loader opened the next stream"}, {siB, keys, "the index made from the second stream"}} {
+				present := map[string]bool{}
+				for _, k := range x.ks {
+					present[k] = true
+				}
+				for i := 0; i < len(x.ks)+len(qs); i++ {
+					var q string
+					if i < len(x.ks) {
+						q = x.ks[i]
+					} else if q = qs[i-len(x.ks)]; present[q] {
+						continue
+					}
+					v, found := x.si.RangeGet(q)
+					w.Trans++
+					if present[q] != found || (found && v != "rec:"+q) || (!found && v != "") {
+						viol = &h.Viol{Sig: "index-reload", Msg: fmt.Sprintf("one loader, two indexes (%s): %s: RangeGet(%s) = (%q,%v), want found=%v", form, x.nm, briefQ(q), v, found, present[q])}
+						return
+					}
+				}
+			}
+			return
+		}
 		switch form {
 		case "unmarshal":
 			buf, merr := other.Marshal()
@@ -737,7 +855,7 @@ func runC12(r *h.Run) {
 		u := x.(c12Unit)
 		w.Begin(func() string { return "C12 " + u.name })
 		if u.prior != nil {
-			for _, form := range []string{"unmarshal", "proto", "assign"} {
+			for _, form := range []string{"unmarshal", "proto", "assign", "loader", "loader-reset", "loader-proto"} {
 				for _, bsz := range []int{1, 2} {
 					w.Evals++
 					w.Tick()
